@@ -616,6 +616,8 @@ namespace Pyxv.C05
 open Pyxv Pyxv.Binds
 
 section NIFormExample
+deriving instance DecidableEq for Q
+deriving instance DecidableEq for ElemC
 /-- `exKs` with the logic cells of row `b` replaced -/
 def exKs' : List RK :=
   [.qs [exQ "t" none],
@@ -631,8 +633,8 @@ def exB' : ElemC := mkElemC "data".toList [("r".toList, true)] .q (exQ "b" (some
 -- the hypotheses of `noninterference_form_refs` hold for `exKs` / `exKs'` (both accepted, one element differs, same chain)
 example : walkC "data".toList [] exKs = some (niA ++ exB :: []) ∧ walkC "data".toList [] exKs' = some (niA ++ exB' :: []) ∧
     exB'.chain = exB.chain ∧
-    (match bindsOfRowsR "data".toList exKs [], bindsOfRowsR "data".toList exKs' [] with | .ok _, .ok _ => true | _, _ => false) = true :=
-  ⟨rfl, rfl, rfl, by decide +kernel⟩
+    (match bindsOfRowsR "data".toList exKs [], bindsOfRowsR "data".toList exKs' [] with | .ok _, .ok _ => true | _, _ => false) = true := by
+  decide +kernel
 end NIFormExample
 
 end Pyxv.C05
